@@ -5,7 +5,10 @@
      pandapower/control/controller/trafo/DiscreteTapControl.py  control_step (:93-119), is_converged (:121-142)
      pandapower/control/controller/trafo/ContinuousTapControl.py control_step (:64-83), is_converged (:85-111)
      pandapower/control/controller/const_control.py  is_converged/control_step (:117-128)
-     pandapower/control/controller/characteristic_control.py  is_converged (:71-89: it WRITES the output), control_step (:91-95)
+     pandapower/control/controller/characteristic_control.py  is_converged (:71-89), control_step (:91-95)
+     pandapower/control/controller/trafo_control.py  nothing_to_do (:83-103), tap parameters as vectors (:106-122, :147-170)
+     pandapower/control/controller/trafo/TapDependentImpedance.py  initialize_control / finalize_control (:40-48)
+     index arrays (element_index lists): per-element vectors, np.all in is_converged; hunting_limit bookkeeping
    The power flow is an oracle: an arbitrary function of the state (abstract part) / a stream of recorded
    result vectors stored in the state (concrete part).  NaN = None.  Executable definitions only. *)
 From Coq Require Import ZArith QArith Qabs List Bool String.
@@ -191,22 +194,36 @@ Fixpoint setb (k : nat) (v : bool) (m : list (nat * bool)) : list (nat * bool) :
   | (j, w) :: m' => if Nat.eqb j k then (k, v) :: m' else (j, w) :: setb k v m'
   end.
 
+(* controller attributes that are matrices of floats: DiscreteTapControl._hunting_taps (rows = recorded tap vectors),
+   TapDependentImpedance.initial_values (one row) *)
+Definition attrtab := list (nat * list (list F)).
+Fixpoint geta (k : nat) (m : attrtab) : list (list F) :=
+  match m with [] => [] | (j, v) :: m' => if Nat.eqb j k then v else geta k m' end.
+Fixpoint seta (k : nat) (v : list (list F)) (m : attrtab) : attrtab :=
+  match m with
+  | [] => [(k, v)]
+  | (j, w) :: m' => if Nat.eqb j k then (k, v) :: m' else (j, w) :: seta k v m'
+  end.
+
 Record cst := {
   vars : slots;                         (* element-table values (tap_pos of a transformer, outputs of characteristic controls) *)
   res : slots;                          (* result-table values (res_bus.vm_pu, ...) *)
   applied : list (nat * bool);          (* controller attribute [applied] *)
+  attrs : attrtab;                      (* controller attributes _hunting_taps / initial_values *)
   stream : list (slots * bool) }.       (* oracle: results and success flag of the next calculations *)
 
 Definition with_vars (s : cst) (v : slots) : cst :=
-  {| vars := v; res := res s; applied := applied s; stream := stream s |}.
+  {| vars := v; res := res s; applied := applied s; attrs := attrs s; stream := stream s |}.
 Definition with_applied (s : cst) (a : list (nat * bool)) : cst :=
-  {| vars := vars s; res := res s; applied := a; stream := stream s |}.
+  {| vars := vars s; res := res s; applied := a; attrs := attrs s; stream := stream s |}.
+Definition with_attrs (s : cst) (a : attrtab) : cst :=
+  {| vars := vars s; res := res s; applied := applied s; attrs := a; stream := stream s |}.
 
 (* the k-th calculation returns the k-th recorded result vector; an exhausted oracle reports failure *)
 Definition run_stream (s : cst) : cst * bool :=
   match stream s with
-  | [] => ({| vars := vars s; res := []; applied := applied s; stream := [] |}, false)
-  | (r, ok) :: rest => ({| vars := vars s; res := r; applied := applied s; stream := rest |}, ok)
+  | [] => ({| vars := vars s; res := []; applied := applied s; attrs := attrs s; stream := [] |}, false)
+  | (r, ok) :: rest => ({| vars := vars s; res := r; applied := applied s; attrs := attrs s; stream := rest |}, ok)
   end.
 
 (* numpy comparisons with NaN are False *)
@@ -317,11 +334,67 @@ Definition interp (pts : list (Q * Q)) (x : F) : F :=
   | _, _ => None
   end.
 
+(* ---- controllers over an index ARRAY (element_index / output_element_index is a list: _read_write_flag = "loc").
+   Every attribute of the controller is a vector with one entry per element (tap_min, tap_max, tap_side_coeff, tap_sign,
+   trafobus, tap_pos, t_nom, tap_step_percent); the numpy expressions of is_converged / control_step act element-wise,
+   is_converged ends with np.all.  nothing_to_do (trafo_control.py:83-103) is one flag for the whole controller:
+   [ntd] = no element is controlled (in service, in the net, not at an ext_grid bus); as soon as one element is controlled
+   ALL listed elements are read, compared and stepped.  The t_ntd field of the element records is not used. *)
+Definition elem (t : tapc) : tapc :=
+  {| t_trafo := t_trafo t; t_bus := t_bus t; t_min := t_min t; t_max := t_max t; t_dir := t_dir t; t_ntd := false |}.
+(* write_to_net(..., "loc"): all values are computed first, then written *)
+Definition write_all (kvs : list (nat * F)) (m : slots) : slots :=
+  fold_left (fun m kv => set (fst kv) (snd kv) m) kvs m.
+
+(* DiscreteTapControl.is_converged (:121-142) on vectors: np.all(converged | is_nan) *)
+Definition discv_conv (ts : list tapc) (ntd : bool) (lower upper : Q) (s : cst) : bool :=
+  if ntd then true else forallb (fun t => disc_conv (elem t) lower upper s) ts.
+(* the new tap vector of control_step (:100-116) *)
+Definition disc_new_F (lower upper : Q) (s : cst) (t : tapc) : F :=
+  match get (t_trafo t) (vars s) with
+  | Some x => Some (disc_new_tap t lower upper (get (t_bus t) (res s)) x)
+  | None => None
+  end.
+(* hunting_limit bookkeeping (:118-120): _hunting_taps = vstack([_hunting_taps, tap_pos]); if hunting_limit is not None and
+   the number of rows exceeds it the oldest row is dropped.  NOTHING ELSE reads _hunting_taps: is_converged does not. *)
+Definition hunt_push (hl : option nat) (rows : list (list F)) (row : list F) : list (list F) :=
+  let r := rows ++ [row] in
+  match hl with
+  | Some n => if (n <? List.length r)%nat then tl r else r
+  | None => r
+  end.
+Definition discv_step (c : nat) (ts : list tapc) (ntd : bool) (lower upper : Q) (hl : option nat) (s : cst) : cst :=
+  if ntd then s else
+  let row := map (disc_new_F lower upper s) ts in
+  let s1 := with_attrs s (seta c (hunt_push hl (geta c (attrs s)) row) (attrs s)) in
+  with_vars s1 (write_all (map (fun t => (t_trafo t, disc_new_F lower upper s t)) ts) (vars s1)).
+(* DiscreteTapControl.initialize_control (:83-91): _hunting_taps = one row of NaN (np.nan for a single index) *)
+Definition discv_init (c : nat) (ts : list tapc) (s : cst) : cst :=
+  with_attrs s (seta c [map (fun _ => None) ts] (attrs s)).
+
+(* ContinuousTapControl on vectors *)
+Definition contv_conv (tks : list (tapc * contp)) (ntd : bool) (s : cst) : bool :=
+  if ntd then true else forallb (fun tk => cont_conv (elem (fst tk)) (snd tk) s) tks.
+Definition cont_new_F (s : cst) (tk : tapc * contp) : F :=
+  match get (t_bus (fst tk)) (res s), get (t_trafo (fst tk)) (vars s) with
+  | Some vm, Some tap => Some (cont_new_tap (fst tk) (snd tk) vm tap)
+  | _, _ => None
+  end.
+Definition contv_step (tks : list (tapc * contp)) (ntd : bool) (s : cst) : cst :=
+  if ntd then s else
+  with_vars s (write_all (map (fun tk => (t_trafo (fst tk), cont_new_F s tk)) tks) (vars s)).
+
 Inductive kind :=
 | KDisc (t : tapc) (lower upper : Q)
 | KCont (t : tapc) (k : contp)
 | KConst
-| KChar (in_res : bool) (inp out : nat) (pts : list (Q * Q)) (tol : Q).
+| KChar (in_res : bool) (inp out : nat) (pts : list (Q * Q)) (tol : Q)
+(* index arrays; hl = hunting_limit *)
+| KDiscV (ts : list tapc) (ntd : bool) (lower upper : Q) (hl : option nat)
+| KContV (tks : list (tapc * contp)) (ntd : bool)
+(* CharacteristicControl over index arrays (ios = (input slot, output slot) per element);
+   tdi = Some restore: the subclass TapDependentImpedance (TapDependentImpedance.py:40-48) *)
+| KCharV (in_res : bool) (ios : list (nat * nat)) (pts : list (Q * Q)) (tol : Q) (tdi : option bool).
 
 (* CharacteristicControl (after "fix: CharacteristicControl writes its set values in control_step, not in is_converged"):
    is_converged (:71-87) computes self.values from the input and compares with the current output value; control_step
@@ -344,6 +417,36 @@ Definition char_conv_old (c : nat) (in_res : bool) (inp out : nat) (pts : list (
   let ok := match v, old with Some a, Some b0 => qltb (qabsv (qsub a b0)) tol | _, _ => false end in
   (getb c (applied s) && ok, with_vars s (set out v (vars s))).
 
+(* CharacteristicControl on vectors: np.all(np.abs(values - output_values) < tol); NaN compares False *)
+Definition charv_ok (in_res : bool) (pts : list (Q * Q)) (tol : Q) (s : cst) (io : nat * nat) : bool :=
+  match char_value in_res (fst io) pts s, get (snd io) (vars s) with
+  | Some a, Some b0 => qltb (qabsv (qsub a b0)) tol
+  | _, _ => false
+  end.
+Definition charv_conv (c : nat) (in_res : bool) (ios : list (nat * nat)) (pts : list (Q * Q)) (tol : Q) (s : cst) : bool * cst :=
+  (getb c (applied s) && forallb (charv_ok in_res pts tol s) ios, s).
+Definition charv_step (c : nat) (in_res : bool) (ios : list (nat * nat)) (pts : list (Q * Q)) (s : cst) : cst :=
+  let s1 := with_vars s (write_all (map (fun io => (snd io, char_value in_res (fst io) pts s)) ios) (vars s)) in
+  with_applied s1 (setb c true (applied s1)).
+(* initialize_control: CharacteristicControl (:64-69) resets [applied]; TapDependentImpedance (:40-43) overrides it WITHOUT
+   calling super: [applied] keeps its value from an earlier run, and with restore the current output values are saved *)
+Definition charv_init (c : nat) (ios : list (nat * nat)) (tdi : option bool) (s : cst) : cst :=
+  match tdi with
+  | None => with_applied s (setb c false (applied s))
+  | Some true => with_attrs s (seta c [map (fun io => get (snd io) (vars s)) ios] (attrs s))
+  | Some false => s
+  end.
+(* finalize_control (TapDependentImpedance.py:45-48): with restore the saved values are written back AFTER the last calculation *)
+Definition charv_final (c : nat) (ios : list (nat * nat)) (tdi : option bool) (s : cst) : cst :=
+  match tdi with
+  | Some true =>
+      match geta c (attrs s) with
+      | row :: _ => with_vars s (write_all (List.combine (map snd ios) row) (vars s))
+      | [] => s
+      end
+  | _ => s
+  end.
+
 Definition mk_ctrl (c : nat) (k : kind) : ctrl cst :=
   let idf := fun s : cst => s in
   let setapp := fun s : cst => with_applied s (setb c true (applied s)) in
@@ -362,6 +465,15 @@ Definition mk_ctrl (c : nat) (k : kind) : ctrl cst :=
          c_repair := idf;
          c_init := fun s => with_applied s (setb c false (applied s));     (* initialize_control (:64-69) *)
          c_reset := idf; c_final := idf |}
+  | KDiscV ts ntd lo up hl =>
+      {| cid := c; c_conv := fun s => (discv_conv ts ntd lo up s, s); c_step := discv_step c ts ntd lo up hl;
+         c_repair := idf; c_init := discv_init c ts; c_reset := idf; c_final := idf |}
+  | KContV tks ntd =>
+      {| cid := c; c_conv := fun s => (contv_conv tks ntd s, s); c_step := contv_step tks ntd;
+         c_repair := idf; c_init := idf; c_reset := idf; c_final := idf |}
+  | KCharV in_res ios pts tol tdi =>
+      {| cid := c; c_conv := charv_conv c in_res ios pts tol; c_step := charv_step c in_res ios pts;
+         c_repair := idf; c_init := charv_init c ios tdi; c_reset := idf; c_final := charv_final c ios tdi |}
   end.
 
 (* the controllers as they were before the two repairs (regression witnesses) *)
@@ -422,6 +534,20 @@ Definition integral (x : Q) : Prop := exists z : Z, x == inject_Z z.
 Definition in_bounds (t : tapc) (tap : F) : Prop :=
   match tap with Some x => t_min t <= x /\ x <= t_max t | None => True end.
 
+(* vector controllers: EVERY listed element satisfies the scalar criterion *)
+Definition discv_ok (ts : list tapc) (lower upper : Q) (s : cst) : Prop :=
+  Forall (fun t => disc_ok t lower upper (get (t_bus t) (res s)) (get (t_trafo t) (vars s))) ts.
+Definition contv_ok (tks : list (tapc * contp)) (s : cst) : Prop :=
+  Forall (fun tk => cont_ok (fst tk) (snd tk) (get (t_bus (fst tk)) (res s)) (get (t_trafo (fst tk)) (vars s))) tks.
+(* characteristic controller: every output is within tol of the characteristic of its input *)
+Definition charv_elem_ok (in_res : bool) (pts : list (Q * Q)) (tol : Q) (s : cst) (io : nat * nat) : Prop :=
+  match char_value in_res (fst io) pts s, get (snd io) (vars s) with
+  | Some a, Some b0 => Qabs (a - b0) < tol
+  | _, _ => False
+  end.
+(* G13r: no TapDependentImpedance with restore among the controllers (finalize_control is the identity) *)
+Definition restores (k : kind) : bool := match k with KCharV _ _ _ _ (Some true) => true | _ => false end.
+
 (* G13: the schedule has at most one non-empty level *)
 Definition G13 {A} (ls : list (list A)) : bool :=
   (List.length (filter (fun l => match l with [] => false | _ => true end) ls) <=? 1)%nat.
@@ -431,7 +557,7 @@ Definition oslots (m : slots) : out := olist (fun p => OL [onat (fst p); ooq (sn
 Definition oev (e : ev cst) : out :=
   match e with
   | EConv c b s => OL [OS "conv"; onat c; OB b; oslots (vars s)]
-  | EStep c s => OL [OS "step"; onat c; oslots (vars s)]
+  | EStep c s => OL [OS "step"; onat c; oslots (vars s); olist (olist ooq) (geta c (attrs s))]
   | ERun ok s => OL [OS "run"; OB ok]
   | ERepair c => OL [OS "repair"; onat c]
   end.
